@@ -164,6 +164,61 @@ class IntSymArray(SymArray):
             value = tr(value)
         np.ndarray.__setitem__(self, key, value)
 
+    # ---- result typing: integer (op) integer stays an integer array, anything involving a float operand or a true
+    #      division is a float array (a plain SymArray: assignments into it do not truncate); storing a float result
+    #      into an integer array in place is the casting error numpy raises
+    def __array_ufunc__(self, ufunc, method, *inputs, out=None, **kw):
+        args = tuple(i.view(SymArray) if isinstance(i, IntSymArray) else i for i in inputs)
+        int_like = ufunc in _INT_PRESERVING and all(_int_operand(i) for i in inputs)
+        if out is not None:
+            if any(isinstance(o, IntSymArray) for o in out) and not int_like and ufunc not in _COMPARISONS:
+                raise TypeError("Cannot cast ufunc '%s' output from dtype('float64') to dtype('int64') with casting rule "
+                                "'same_kind'" % ufunc.__name__)
+            kw['out'] = tuple(o.view(SymArray) if isinstance(o, IntSymArray) else o for o in out)
+        res = getattr(ufunc, method)(*args, **kw)
+        if isinstance(res, np.ndarray) and res.dtype == object:
+            if res.ndim == 0:
+                return res[()]
+            res = res.view(IntSymArray if int_like else SymArray)
+        elif out is not None and isinstance(res, np.ndarray):
+            return out[0] if len(out) == 1 else out
+        return res
+
+    def astype(self, dtype, *args, **kwargs):
+        r = SymArray.astype(self.view(SymArray), dtype, *args, **kwargs)
+        try:
+            if isinstance(r, np.ndarray) and r.dtype == object and np.dtype(dtype).kind in 'iu':
+                return r.view(IntSymArray)
+        except TypeError:
+            pass
+        return r
+
+
+_INT_PRESERVING = {np.add, np.subtract, np.multiply, np.negative, np.positive, np.absolute, np.floor_divide, np.remainder,
+                   np.maximum, np.minimum, np.sign, np.square}
+_COMPARISONS = {np.less, np.less_equal, np.greater, np.greater_equal, np.equal, np.not_equal, np.logical_and, np.logical_or,
+                np.logical_not, np.isnan, np.isfinite}
+
+
+def _int_operand(v):
+    if isinstance(v, IntSymArray):
+        return True
+    if isinstance(v, np.ndarray):
+        if v.dtype == object:
+            return False
+        return v.dtype.kind in 'iub'
+    if isinstance(v, (bool, int, np.integer, np.bool_, SymInt, SymBool)):
+        return True
+    return False
+
+
+def int_array(values):
+    """an integer-dtype input array of solver integers (harness side)"""
+    a = np.empty(len(values), dtype=object)
+    for i, v in enumerate(values):
+        a[i] = v
+    return a.view(IntSymArray)
+
 
 def obj_full(shape, value):
     if isinstance(shape, (int, np.integer)):
@@ -221,7 +276,13 @@ def apply_matrix(M, c, v):
                 if float(m).is_integer():
                     acc = acc + v[j] * int(m)
                 else:
-                    acc = acc + v[j] * float(m)
+                    # coefficients such as 1/3 (np.pad's 'mean') are the doubles nearest to a small rational: use the rational,
+                    # so that the model is the mathematical operation and not one particular rounding of it
+                    fr = Fraction(float(m)).limit_denominator(64)
+                    if abs(float(fr) - float(m)) < 1e-13:
+                        acc = acc + v[j] * lift(fr)
+                    else:
+                        acc = acc + v[j] * float(m)
         out[i] = acc
     return out.view(SymArray)
 
@@ -364,12 +425,18 @@ class NPProxy(object):
         return real_np.empty_like(a, dtype=dtype, **kw)
 
     def zeros_like(self, a, dtype=None, **kw):
+        proto_int = isinstance(a, IntSymArray) and dtype is None
         a = np.asarray(a)
         dt = a.dtype if dtype is None else dtype
+        shape = kw.get('shape', None)
+        shape = a.shape if shape is None else shape
         if a.dtype == object or self._want_obj(dt):
             if np.dtype(dt).kind == 'b':
-                return real_np.zeros(a.shape, dtype=bool)
-            return obj_full(a.shape, 0)
+                return real_np.zeros(shape, dtype=bool)
+            out = obj_full(shape, 0)
+            if proto_int or (a.dtype != object and np.dtype(dt).kind in 'iu') or (dtype is not None and np.dtype(dt).kind in 'iu'):
+                out = out.view(IntSymArray)
+            return out
         return real_np.zeros_like(a, dtype=dtype, **kw)
 
     def ones_like(self, a, dtype=None, **kw):
